@@ -1285,15 +1285,18 @@ impl Vm {
             if module.borrow().imported {
                 self.push(Value::ObjModule(module));
                 self.push(Value::None);
-            } else {
+                return Ok(());
+            } else if self.is_loading_module(module) {
                 let err = error!(
                     ErrorKind::ImportError,
                     "Circular dependency encountered when importing module '{}'.",
                     path.as_str()
                 );
                 self.try_handle_error(err)?;
+                return Ok(());
             }
-            return Ok(());
+            // An earlier import of this module failed before it finished: load it afresh.
+            self.modules.remove(&path);
         }
 
         let source = match (self.module_loader)(&path) {
@@ -1321,9 +1324,29 @@ impl Vm {
         self.push(Value::ObjClosure(closure.as_gc()));
 
         self.call_value(self.peek(0), 0)?;
-        let active_module_path = self.active_module.borrow().path;
-        self.init_built_in_globals(&active_module_path);
+        if self.active_module == module {
+            // The module's body is about to run (the call may instead have failed and been handled).
+            let active_module_path = self.active_module.borrow().path;
+            self.init_built_in_globals(&active_module_path);
+        }
         Ok(())
+    }
+
+    /// Is the body of `module` executing in the running fiber or in a fiber waiting for it?
+    fn is_loading_module(&self, module: Gc<RefCell<ObjModule>>) -> bool {
+        let mut fiber = self.fiber.as_ref().map(|f| f.as_gc());
+        while let Some(current) = fiber {
+            let borrowed_fiber = current.borrow();
+            let loading = borrowed_fiber
+                .frames
+                .iter()
+                .any(|f| f.closure.module == module && f.closure.function.name.is_empty());
+            if loading {
+                return true;
+            }
+            fiber = borrowed_fiber.caller;
+        }
+        false
     }
 
     fn finish_import_impl(&mut self) {
